@@ -6,6 +6,7 @@ package main
 import (
 	"encoding/json"
 	"fmt"
+	"strings"
 
 	am "github.com/pancsta/asyncmachine-go/pkg/machine"
 )
@@ -24,6 +25,7 @@ type GenOpt struct {
 	QueueLimit           bool // sometimes use a tiny queue limit
 	Shape                string
 	NoAfter              bool
+	BindKinds            bool // also bind structs with func fields and StatePrefix bindings
 }
 
 var stateLetters = "abcdefghijklmnopqrstuvwxyz"
@@ -231,6 +233,27 @@ func genHistory(r *Rng, o GenOpt) *HistInput {
 	in := &HistInput{States: genSchema(r, o)}
 	n := len(in.States)
 	in.Bindings = genBindings(r, n, o)
+	if o.BindKinds {
+		// struct bindings (func fields) and StatePrefix bindings besides maps
+		for bi := range in.Bindings {
+			kind := []string{"map", "struct", "prefix"}[r.Intn(3)]
+			if kind == "prefix" {
+				// only handlers of "S"-prefixed states can be reached through StatePrefix "S"
+				var keep []HKey
+				for _, k := range in.Bindings[bi] {
+					ok := k.K != "anyenter" && k.K != "anystate" && strings.HasPrefix(in.States[k.A].Name, "S")
+					if k.K == "trans" && !strings.HasPrefix(in.States[k.B].Name, "S") {
+						ok = ok && true // the event name starts with the first state's name
+					}
+					if ok {
+						keep = append(keep, k)
+					}
+				}
+				in.Bindings[bi] = keep
+			}
+			in.BindKinds = append(in.BindKinds, kind)
+		}
+	}
 	if len(in.Bindings) > 0 {
 		in.Actions = genActions(r, n, o, r.Range(5, 60))
 	}
